@@ -121,8 +121,9 @@ def mesh_case(ck, rng, label, crys, ex, Nmesh):
     # implementation's own inBZ on every mesh point, and its BZG against the exact Voronoi-relevant vectors
     res["self_inbz_false"] = sum(1 for k in kfull0 if not crys.inBZ(k))
     res["inbz_wrong"] = [i for i, (k, n) in enumerate(zip(kfull0, full)) if bool(crys.inBZ(k)) != inbz(n)][:5]
-    nz = [h for h in box if any(h)]
-    relevant = set(h for h in nz if all(sg.bil6(m6, h, h2) < sg.bil6(m6, h2, h2) for h2 in nz if h2 != h))
+    nz = [tuple(list(h) + [0] * (3 - dim)) for h in itertools.product(range(-3, 4), repeat=dim) if any(h)]   # the code's candidate range
+    qq = {h: sg.bil6(m6, h, h) for h in nz}
+    relevant = set(h for h in nz if all(sg.bil6(m6, h, h2) < qq[h2] for h2 in nz if h2 != h))
     impl_bzg = set()
     for Gh in crys.BZG:
         f = np.dot(crys.lattice.T, 2 * Gh) / (2 * np.pi)
